@@ -221,7 +221,26 @@ func (c *Ctx) byteLimitOptions() {
 		c.Missing("option-number-types", construct)
 		return
 	}
-	acc, pan := c.optionAssertions(fn)
+	acc, pan := map[string]bool{}, []string{}
+	seenF := map[*ssa.Function]bool{}
+	var visitF func(f *ssa.Function)
+	visitF = func(f *ssa.Function) {
+		if seenF[f] {
+			return
+		}
+		seenF[f] = true
+		a, pn := c.optionAssertions(f)
+		for k := range a {
+			acc[k] = true
+		}
+		pan = append(pan, pn...)
+		for _, ci := range callsIn(f) {
+			if g := StaticFn(ci); g != nil && p.IsHelios(g) && fnPkg(g) == fnPkg(f) {
+				visitF(g)
+			}
+		}
+	}
+	visitF(fn)
 	var missing []string
 	for _, t := range yamlNumberTypes {
 		if !acc[t] {
@@ -254,7 +273,8 @@ func (c *Ctx) byteLimitOptions() {
 					continue
 				}
 				r := c.condRel(it)
-				if r.Pred == "" && r.Y == "" && strings.Contains(r.X, "phi(") && !strings.Contains(r.X, "#1") {
+				if r.Pred == "" && r.Y == "" && !r.Neq && (r.Lo != negInf || r.Hi != posInf) && !strings.HasSuffix(r.X, "#1") &&
+					(strings.Contains(r.X, "phi(") || strings.Contains(r.X, "param:cfg[param:key]")) && (r.Lo <= 1 && r.Lo >= -1 || r.Hi <= 1 && r.Hi >= -1) {
 					rng, have = r, true
 				}
 			}
